@@ -68,7 +68,7 @@ MkDecl(s) ==
                        !.cons = Tup([i \in 1..Len(s.cons) |-> ConOf(s.cons[i])]),
                        !.obj = Tup([i \in 1..Len(s.obj) |-> ObjOf(s.obj[i])]),
                        !.quads = IF \E i \in 1..Len(s.obj) : s.obj[i] = "o6"
-                                 THEN (IF s.rhs = "RA" THEN <<Plus(Times(P(1), X(1)), Times(P(2), Tm))>> ELSE <<Q1>>) ELSE <<>>,
+                                 THEN (IF s.rhs = "RA" THEN <<Plus(Times(P(1), X(1)), Times(P(2), Tm))>> ELSE IF s.rhs = "RF" THEN d0.quads ELSE <<Q1>>) ELSE <<>>,
                        !.reads = IF s.meth = "DC"
                                  THEN <<Read("C02.s", "sample", X(1), "control"), Read("C02.s", "sample", X(1), "integrator"),
                                         Read("C02.s", "sample", X(1), "roots"), Read("C06.e", "sample", Tm, "roots")>>
@@ -405,9 +405,10 @@ Space ==
               /\ (s.rhs = "RB" <=> s.cons = <<"kM", "k1">>) /\ (s.rhs = "R4" <=> s.cons = <<"kMp">>)
               /\ (s.meth # "DC" => \A i \in 1..Len(s.cons) : s.cons[i] \notin {"kR", "kS"})}
     [] Family = "C05" ->
-         {s \in [rhs : {"R1", "R3", "R4", "R7", "RA"}, meth : {"MS", "SS"}, intg : {"rk", "expl_euler"}, N : 1..MaxN, M : 1..MaxM,
+         {s \in [rhs : {"R1", "R3", "R4", "R7", "RA", "RF"}, meth : {"MS", "SS"}, intg : {"rk", "expl_euler"}, N : 1..MaxN, M : 1..MaxM,
                  grid : {"uni", "geo"}, hz : {"num", "fb"},
-                 seed : {Seed}, cons : {<<>>}, obj : ObjSets] : Wellformed(s)}
+                 seed : {Seed}, cons : {<<>>}, obj : ObjSets \cup {<<"o6", "oB">>, <<"oB", "o1", "o6">>}] :
+              Wellformed(s) /\ (s.rhs = "RF" <=> \E i \in 1..Len(s.obj) : s.obj[i] = "oB")}
 
 SpaceG ==
   {s \in [meth : {"MS", "SS", "DC"}, N : 1..(IF Thorough THEN 6 ELSE 3), M : 1..(IF Thorough THEN 4 ELSE 2), grid : {"uni", "geo", "geoL", "fun", "dens", "free"},
